@@ -123,6 +123,7 @@ def errName : ErrKind → String
   | .moved => "moved"
   | .upstream => "upstream"
   | .both => "both"
+  | .other => "other"
 
 def errOfName : String → Except String ErrKind
   | "notFound" => pure .notFound
@@ -130,6 +131,7 @@ def errOfName : String → Except String ErrKind
   | "moved" => pure .moved
   | "upstream" => pure .upstream
   | "both" => pure .both
+  | "other" => pure .other
   | e => throw s!"unknown error kind {e}"
 
 def encTokRes : TokRes → Json
@@ -226,8 +228,8 @@ def doRun (a : Json) : Except String Json := do
   let implTimes := implObs.map fun o => match o with | .inl x => x.time | .inr x => x.time
   let cands := (modelTimes ++ implTimes).eraseDups
   let implJudge := implObs.map fun o => match o with
-    | .inl x => tokJudge env cands x
-    | .inr x => sarJudge env cands x
+    | .inl x => tokJudgeR env cands x
+    | .inr x => sarJudgeR env cands x
   pure <| J.obj [
     ("outs", Json.arr (r.outs.map encOut).toArray),
     ("steps", J.nat r.steps.length),
